@@ -104,6 +104,16 @@ func (e *gfP) Unmarshal(in []byte) {
 	}
 }
 
+// canonicalCoordinates reports whether every 32-byte big-endian word of in is < p.
+func canonicalCoordinates(in []byte) bool {
+	for i := 0; i+32 <= len(in); i += 32 {
+		if new(big.Int).SetBytes(in[i:i+32]).Cmp(P) >= 0 {
+			return false
+		}
+	}
+	return true
+}
+
 func montEncode(c, a *gfP) { gfpMul(c, a, r2) }
 func montDecode(c, a *gfP) { gfpMul(c, a, &gfP{1}) }
 
